@@ -35,22 +35,109 @@ fn table(id: &str) -> Option<(RunFn, ReplayFn)> {
         "C10" => (props::c10::run_check, props::c10::replay),
         "C11" => (props::c11::run_check, props::c11::replay),
         "C12" => (props::c12::run_check, props::c12::replay),
+        "C13" => (props::c13::run_check, props::c13::replay),
         "C15" => (props::c15::run, props::c15::replay),
         _ => return None,
     })
 }
 
+fn exit_status_text(st: &std::process::ExitStatus) -> String {
+    use std::os::unix::process::ExitStatusExt;
+    match (st.code(), st.signal()) {
+        (Some(c), _) => format!("exit code {c}"),
+        (None, Some(s)) => format!("signal {s}"),
+        _ => "unknown status".into(),
+    }
+}
+
+/// Supervisor: runs the actual check in a child process. A child that dies (signal, abort,
+/// stack overflow) is a finding of the input it was working on, not a broken check.
+fn supervise(id: &str, args: &[String]) -> ! {
+    let exe = std::env::current_exe().expect("current_exe");
+    let jdir = engine::journal_dir();
+    let _ = std::fs::create_dir_all(&jdir);
+    std::env::set_var("NLV_JOURNAL_DIR", &jdir);
+    let mut child = std::process::Command::new(&exe).args(args).arg("--child").spawn().unwrap_or_else(|e| {
+        eprintln!("cannot start worker: {e}");
+        std::process::exit(2)
+    });
+    let pid = child.id();
+    let st = child.wait().expect("wait");
+    let journal: Vec<std::path::PathBuf> = std::fs::read_dir(&jdir)
+        .map(|d| d.filter_map(|e| e.ok()).map(|e| e.path()).filter(|p| p.file_name().and_then(|n| n.to_str()).map(|n| n.starts_with(&format!("{pid}-"))).unwrap_or(false)).collect())
+        .unwrap_or_default();
+    let jd = jdir.clone();
+    let cleanup = move |_files: &[std::path::PathBuf]| {
+        let _ = std::fs::remove_dir_all(&jd);
+    };
+    if let Some(code) = st.code() {
+        if code == 0 || code == 1 || code == 2 {
+            cleanup(&journal);
+            std::process::exit(code);
+        }
+    }
+    // the worker died: find the recorded input that kills a fresh process
+    eprintln!("worker process ended with {}", exit_status_text(&st));
+    for f in &journal {
+        let text = std::fs::read_to_string(f).unwrap_or_default();
+        let (tag, body) = text.split_once('\n').unwrap_or(("eval", ""));
+        let probe_file = f.with_extension("probe");
+        let _ = std::fs::write(&probe_file, &text);
+        let pst = std::process::Command::new(&exe).arg(id).arg("--probe").arg(&probe_file).arg("--child").status();
+        let _ = std::fs::remove_file(&probe_file);
+        let died = match pst {
+            Ok(s) => s.code().is_none() || !matches!(s.code(), Some(0)),
+            Err(_) => false,
+        };
+        if died {
+            let case = serde_json::json!({"kind": "process-death", "tag": tag, "text": body});
+            let v = Violation {
+                property: id.to_string(),
+                driver: "supervisor".into(),
+                class: "process-died".into(),
+                case,
+                expected: "a value or one of the documented error kinds".into(),
+                observed: format!("the evaluating process ended with {}", pst.map(|s| exit_status_text(&s)).unwrap_or_default()),
+            };
+            let dir = verif_dir();
+            let _ = std::fs::create_dir_all(dir.join("replays"));
+            let name = format!("replays/{}-{:016x}.json", id, hash_str(&format!("{}", v.case)));
+            let path = dir.join(&name);
+            let _ = std::fs::write(&path, serde_json::to_string_pretty(&v.to_json()).unwrap());
+            println!("VIOLATION property={} replay={}", id, path.display());
+            println!("  driver=supervisor class=process-died");
+            println!("  case={}", v.case);
+            println!("  observed={}", v.observed);
+            cleanup(&journal);
+            std::process::exit(1);
+        }
+    }
+    cleanup(&journal);
+    eprintln!("the worker died but none of its recorded inputs reproduces it in a fresh process (machinery failure)");
+    std::process::exit(2)
+}
+
 fn main() {
-    let args: Vec<String> = std::env::args().skip(1).collect();
+    let mut args: Vec<String> = std::env::args().skip(1).collect();
     if args.is_empty() {
         usage();
     }
     let id = args[0].clone();
+    let is_child = args.iter().any(|a| a == "--child");
+    let is_inner = args.iter().any(|a| a == "--inner");
+    if !is_child && !is_inner {
+        supervise(&id, &args);
+    }
+    args.retain(|a| a != "--child");
+    if is_child {
+        engine::journal_enable();
+    }
     let mut tier = match std::env::var("VERIF_TIER").as_deref() {
         Ok("thorough") => Tier::Thorough,
         _ => Tier::Quick,
     };
     let mut replay: Option<String> = None;
+    let mut probe: Option<String> = None;
     let mut inner = false;
     let mut i = 1;
     while i < args.len() {
@@ -68,6 +155,10 @@ fn main() {
                 i += 1;
                 replay = Some(args.get(i).cloned().unwrap_or_else(|| usage()));
             }
+            "--probe" => {
+                i += 1;
+                probe = Some(args.get(i).cloned().unwrap_or_else(|| usage()));
+            }
             _ => usage(),
         }
         i += 1;
@@ -82,7 +173,14 @@ fn main() {
         }
     };
     engine::install_panic_hook();
-    let mut ctx = Ctx { tier, seed, shards, strict: false, inner };
+    if let Some(p) = probe {
+        let text = std::fs::read_to_string(&p).unwrap_or_default();
+        let (tag, body) = text.split_once('\n').unwrap_or(("eval", ""));
+        let (tag, body) = (tag.to_string(), body.to_string());
+        engine::with_big_stack(move || engine::probe(&tag, &body));
+        std::process::exit(0);
+    }
+    let mut ctx = Ctx { tier, seed, shards, strict: false, inner, known_printed: 0 };
 
     if let Some(path) = replay {
         ctx.strict = true;
@@ -97,6 +195,14 @@ fn main() {
         let case = v.get("case").cloned().unwrap_or(v.clone());
         let res = engine::with_big_stack(move || {
             engine::install_gc_observer();
+            if case.get("kind").and_then(|k| k.as_str()) == Some("process-death") {
+                // if the defect is still there this process dies and the supervisor reports it
+                let tag = case.get("tag").and_then(|x| x.as_str()).unwrap_or("eval").to_string();
+                let text = case.get("text").and_then(|x| x.as_str()).unwrap_or("").to_string();
+                engine::note_current(&tag, &text);
+                engine::probe(&tag, &text);
+                return None;
+            }
             replay_fn(&case)
         });
         match res {
@@ -147,6 +253,7 @@ fn main() {
     for l in &known_lines {
         println!("{l}");
     }
+    ctx.known_printed = known_lines.len();
     let rep = run(&ctx);
     let code = finish(&ctx, rep);
     std::process::exit(code);
